@@ -1,1 +1,237 @@
-//! Environment doubles: fake rsync, loopback clients, child-process control.
+//! Environment doubles: test bed with a fake rsync, engine runner.
+
+use std::collections::BTreeSet;
+use std::path::{Path, PathBuf};
+use std::sync::Once;
+use routinator::config::Config;
+use routinator::engine::Engine;
+use routinator::metrics::Metrics;
+use routinator::payload::{PayloadSnapshot, ValidationReport};
+use routinator::slurm::LocalExceptions;
+use crate::gen::Published;
+
+static INIT: Once = Once::new();
+
+/// Initialises logging of the routinator crate once.  Logging is off unless
+/// VERIF_LOG is set (then warnings go to stderr).
+pub fn init_process() {
+    INIT.call_once(|| {
+        let _ = routinator::process::Process::init();
+        if std::env::var_os("VERIF_LOG").is_none() {
+            log::set_max_level(log::LevelFilter::Off);
+        }
+        else if std::env::var("VERIF_LOG").map(|v| v == "debug").unwrap_or(false) {
+            log::set_max_level(log::LevelFilter::Debug);
+        }
+    });
+}
+
+/// A scratch environment: cache dir, TAL dir, published rsync tree, fake rsync.
+pub struct TestBed {
+    pub dir: tempfile::TempDir,
+    pub cache: PathBuf,
+    pub tals: PathBuf,
+    pub pubdir: PathBuf,
+    pub rsync: PathBuf,
+    pub rsync_log: PathBuf,
+    pub fail_dir: PathBuf,
+}
+
+impl TestBed {
+    pub fn new() -> Self {
+        init_process();
+        let base = std::env::var("VERIF_TMP").map(PathBuf::from).unwrap_or_else(|_| std::env::temp_dir());
+        std::fs::create_dir_all(&base).ok();
+        let dir = tempfile::Builder::new().prefix("vh-bed-").tempdir_in(base).expect("tempdir");
+        let root = dir.path().to_path_buf();
+        let bed = TestBed {
+            cache: root.join("cache"),
+            tals: root.join("tals"),
+            pubdir: root.join("pub"),
+            rsync: root.join("fake-rsync"),
+            rsync_log: root.join("rsync.log"),
+            fail_dir: root.join("fail"),
+            dir,
+        };
+        for d in [&bed.cache, &bed.tals, &bed.pubdir, &bed.fail_dir] {
+            std::fs::create_dir_all(d).unwrap();
+        }
+        bed
+    }
+
+    /// A configuration using only this bed: no bundled TALs, rsync via the
+    /// fake rsync, RRDP disabled.
+    pub fn config(&self) -> Config {
+        let mut c = Config::default_with_paths(self.dir.path().join("routinator.conf"), self.cache.clone());
+        c.no_rir_tals = true;
+        c.bundled_tals = Vec::new();
+        c.extra_tals_dir = Some(self.tals.clone());
+        c.rsync_command = std::env::current_exe().expect("current exe").to_string_lossy().into_owned();
+        c.rsync_args = Some(vec!["fake-rsync".into(), self.dir.path().to_string_lossy().into_owned()]);
+        c.disable_rrdp = true;
+        c.validation_threads = 2;
+        c.rsync_timeout = Some(std::time::Duration::from_secs(20));
+        c
+    }
+
+    pub fn publish(&self, p: &Published) {
+        p.write_rsync_tree(&self.pubdir);
+        p.write_tals(&self.tals);
+    }
+
+    /// Publishes only the repository tree (TALs unchanged).
+    pub fn publish_files(&self, p: &Published) {
+        p.write_rsync_tree(&self.pubdir);
+    }
+
+    pub fn take_rsync_log(&self) -> Vec<String> {
+        let res = std::fs::read_to_string(&self.rsync_log).unwrap_or_default()
+            .lines().map(String::from).collect();
+        let _ = std::fs::remove_file(&self.rsync_log);
+        res
+    }
+
+    /// Makes the fake rsync fail (exit code) for the given module URI, or work again.
+    pub fn fail_module(&self, module: &str, code: Option<i32>) {
+        let rel = module.strip_prefix("rsync://").unwrap_or(module);
+        let key: String = rel.chars().map(|c| if c == '/' { '_' } else { c }).collect();
+        let path = self.fail_dir.join(key);
+        match code {
+            Some(c) => std::fs::write(path, format!("{c}")).unwrap(),
+            None => { let _ = std::fs::remove_file(path); }
+        }
+    }
+
+    pub fn wipe_cache(&self) {
+        let _ = std::fs::remove_dir_all(&self.cache);
+        std::fs::create_dir_all(&self.cache).unwrap();
+    }
+}
+
+fn copy_tree(src: &Path, dst: &Path) -> std::io::Result<()> {
+    std::fs::create_dir_all(dst)?;
+    for e in std::fs::read_dir(src)? {
+        let e = e?;
+        let p = e.path();
+        let d = dst.join(e.file_name());
+        if p.is_dir() { copy_tree(&p, &d)?; } else { std::fs::copy(&p, &d)?; }
+    }
+    Ok(())
+}
+
+/// The fake rsync: `vh fake-rsync <bed root> [rsync options...] <source> <destination>`.
+/// Serves `<root>/pub/<host>/<module>/` for `rsync://<host>/<module>/`, logs the
+/// source to `<root>/rsync.log`, fails with the code in `<root>/fail/<host>_<module>_`
+/// if that file exists, and mirrors the module into the destination (--delete).
+pub fn fake_rsync(args: &[String]) -> i32 {
+    if args.len() < 3 { eprintln!("fake rsync: too few arguments"); return 1 }
+    let root = PathBuf::from(&args[0]);
+    let src = &args[args.len() - 2];
+    let dst = PathBuf::from(&args[args.len() - 1]);
+    {
+        use std::io::Write;
+        if let Ok(mut f) = std::fs::OpenOptions::new().create(true).append(true).open(root.join("rsync.log")) {
+            let _ = writeln!(f, "{src}");
+        }
+    }
+    let rel = src.strip_prefix("rsync://").unwrap_or(src);
+    let key: String = rel.chars().map(|c| if c == '/' { '_' } else { c }).collect();
+    if let Ok(code) = std::fs::read_to_string(root.join("fail").join(&key)) {
+        eprintln!("fake rsync: configured failure for {src}");
+        return code.trim().parse().unwrap_or(10)
+    }
+    let from = root.join("pub").join(rel);
+    if !from.is_dir() {
+        eprintln!("fake rsync: unknown module {src}");
+        return 23
+    }
+    let _ = std::fs::remove_dir_all(&dst);
+    match copy_tree(&from, &dst) {
+        Ok(()) => 0,
+        Err(e) => { eprintln!("fake rsync: copy failed: {e}"); 11 }
+    }
+}
+
+/// The payload of a snapshot in a normalised, comparable form.
+#[derive(Clone, Debug, Default, PartialEq, Eq)]
+pub struct Payload {
+    /// "prefix/len-maxlen ASn"
+    pub origins: BTreeSet<String>,
+    /// "ASn ski-hex key-hex-prefix"
+    pub keys: BTreeSet<String>,
+    /// "ASn => [providers]"
+    pub aspas: BTreeSet<String>,
+    /// Number of items in the snapshot (to detect duplicates).
+    pub count: usize,
+    /// Refresh time (unix seconds).
+    pub refresh: Option<i64>,
+}
+
+pub fn origin_str(prefix: &str, max: u8, asn: u32) -> String {
+    format!("{prefix}-{max} AS{asn}")
+}
+
+pub fn payload_of(s: &PayloadSnapshot) -> Payload {
+    let mut p = Payload::default();
+    for (o, _) in s.origins() {
+        p.origins.insert(format!("{}/{}-{} {}", o.prefix.addr(), o.prefix.prefix_len(), o.prefix.resolved_max_len(), o.asn));
+        p.count += 1;
+    }
+    for (k, _) in s.router_keys() {
+        let key: String = k.key_info.as_slice().iter().rev().take(8).map(|b| format!("{b:02x}")).collect();
+        p.keys.insert(format!("{} {} {}", k.asn, k.key_identifier, key));
+        p.count += 1;
+    }
+    for (a, _) in s.aspas() {
+        let provs: Vec<String> = a.providers.iter().map(|x| format!("{x}")).collect();
+        p.aspas.insert(format!("{} => [{}]", a.customer, provs.join(",")));
+        p.count += 1;
+    }
+    p.refresh = s.refresh().map(|t| t.timestamp());
+    p
+}
+
+#[derive(Debug)]
+pub enum RunError {
+    Init(String),
+    Retry,
+    Fatal,
+}
+
+pub struct RunResult {
+    pub payload: Payload,
+    pub snapshot: PayloadSnapshot,
+    pub metrics: Metrics,
+}
+
+/// One validation run the way `routinator vrps` does it (engine, report,
+/// cleanup, snapshot), with the given exceptions.
+pub fn run_once(config: &Config, update: bool, exceptions: &LocalExceptions) -> Result<RunResult, RunError> {
+    init_process();
+    let mut engine = Engine::new(config, update).map_err(|_| RunError::Init("Engine::new failed".into()))?;
+    engine.ignite().map_err(|_| RunError::Init("ignite failed".into()))?;
+    run_with_engine(&engine, config, exceptions)
+}
+
+pub fn run_with_engine(engine: &Engine, config: &Config, exceptions: &LocalExceptions) -> Result<RunResult, RunError> {
+    let (report, mut metrics) = ValidationReport::process(engine, config, false).map_err(|e| {
+        if e.is_fatal() { RunError::Fatal } else { RunError::Retry }
+    })?;
+    let snapshot = report.into_snapshot(exceptions, &mut metrics);
+    Ok(RunResult { payload: payload_of(&snapshot), snapshot, metrics })
+}
+
+pub fn dir_listing(root: &Path) -> BTreeSet<String> {
+    fn walk(base: &Path, dir: &Path, out: &mut BTreeSet<String>) {
+        if let Ok(rd) = std::fs::read_dir(dir) {
+            for e in rd.flatten() {
+                let p = e.path();
+                if p.is_dir() { walk(base, &p, out) }
+                else { out.insert(p.strip_prefix(base).unwrap().to_string_lossy().into_owned()); }
+            }
+        }
+    }
+    let mut out = BTreeSet::new();
+    walk(root, root, &mut out);
+    out
+}
